@@ -29,6 +29,7 @@ UNITS = [
     "src/orange/orangeinp/detail/InternalSurfaceFlagger.cc",
     "src/orange/orangeinp/detail/SenseEvaluator.cc",
     "src/orange/orangeinp/CsgTreeUtils.cc",
+    "src/orange/orangeinp/CsgTree.cc",
     "src/orange/OrangeTypes.cc",
     "src/celeritas/geo/detail/BoundaryAction.cc",
 ]
@@ -331,6 +332,7 @@ def run(db, cx):
               why="a volume whose depth is not recorded escapes the capacity validation")
 
     replacer_inference(db, cx)
+    dedup_consistency(db, cx)
 
 
 def replacer_inference(db, cx):
@@ -432,3 +434,42 @@ def replacer_inference(db, cx):
                         "replaces a live surface by a constant in the whole universe, which changes "
                         "the region's boolean function (an inference that is not in this audited "
                         "table has to be reviewed and added to it)")
+
+
+def dedup_consistency(db, cx):
+    """C10.9: CsgTree keeps a table definition -> node id next to the node storage.  The sweep of
+    replace_and_simplify reaches its fixed point only if both agree: wherever exchange() re-points
+    a table entry (a mutation of the entry's `second`, the node id) to another node, the
+    definitions of the two nodes have to be exchanged too - in the same block, before the entry
+    is re-pointed - so that the node the table names holds the definition the table records."""
+    CT = C + "orangeinp::CsgTree::"
+    fs = db.get(CT + "exchange")
+    cx.require(fs, "anchor CsgTree::exchange not found")
+    n = 0
+    for f in fs:
+        for (b, i, ev) in f.events("call"):
+            args = ev.get("args", [])
+            repoints = ev["callee"] in ("std::swap",) and any(
+                "f:std::pair::second" in (a.get("path") or {}).get("chain", []) and a.get("mode") == "ref"
+                for a in args)
+            if not repoints:
+                continue
+            n += 1
+            moved = False
+            for k in range(i - 1, -1, -1):
+                e2 = f.blocks[b]["ev"][k]
+                if e2["e"] == "call" and e2["callee"] == "std::swap" and len(e2.get("args", [])) == 2 and all(
+                        CT + "at" in a.get("calls", []) for a in e2["args"]):
+                    moved = True
+            cx.ob("C10.9-dedup-consistency", "CsgTree::exchange: re-pointing a deduplication entry is "
+                  "paired with exchanging the two node definitions [@%s]" % short(ev["loc"]).split(":")[-1],
+                  moved, "swap(at(a), at(b)) precedes swap(entry.second, id) in the same block"
+                  if moved else "the table entry is re-pointed but the node keeps its old definition",
+                  short(ev["loc"]),
+                  why="the node named by the table then still holds its unsimplified definition and "
+                      "is never simplified again: negated/aliased shapes survive that the flagging "
+                      "of 'no internal surfaces' (and the encoders) assume to be gone")
+        for (b, i, ev) in f.events("write"):
+            if "f:std::pair::second" in (ev.get("path") or {}).get("chain", []):
+                n += 1
+    cx.floor("dedup-table mutations in CsgTree::exchange", n, 2)
